@@ -247,7 +247,7 @@ func init() {
 		S["sync/atomic.Add"+w.n] = func(fr *Frame, c *ssa.CallCommon, a []*Val, av []ssa.Value, pos token.Pos) *Val {
 			l := fr.locOf(av[0])
 			old := fr.loadLoc(l)
-			nv := fr.vc.define("atomic.add", SInt, wrapInt64(sx("+", old.T, a[1].T), w.t))
+			nv := fr.vc.define("atomic.add", SInt, wrapInt(sx("+", old.T, a[1].T), w.t)) // 64-bit: mathematical (A5), like every other 64-bit addition
 			fr.storeLoc(l, nv)
 			return fr.mkVal(nv, w.t)
 		}
